@@ -409,6 +409,118 @@ def gen_dense_baseline(rng):
     return bytes(out)
 
 
+class BitW:
+    """bit writer with JPEG 0xFF byte stuffing"""
+
+    def __init__(self):
+        self.out, self.acc, self.n = bytearray(), 0, 0
+
+    def put(self, v, nbits):
+        for i in range(nbits - 1, -1, -1):
+            self.acc = (self.acc << 1) | ((v >> i) & 1)
+            self.n += 1
+            if self.n == 8:
+                self.out.append(self.acc)
+                if self.acc == 0xFF:
+                    self.out.append(0)
+                self.acc, self.n = 0, 0
+
+    def flush(self):
+        while self.n:
+            self.put(1, 1)
+        return bytes(self.out)
+
+
+def gen_fastpath(rng):
+    """worst-case blocks for the unchecked decode_mcu_fast(): one code of each length 1..16, the
+    16-bit (almost all ones) code carries 15 extra bits, so a block takes up to 2 x 248 source bytes
+    with 0xFF stuffing; the buffer is cut inside an MCU and has no EOI (exact-size allocation)"""
+    lay = rng.choice(["gray", "gray", "444", "420", "422"])
+    comps = {"gray": [(1, 0x11)], "444": [(1, 0x11), (2, 0x11), (3, 0x11)], "420": [(1, 0x22), (2, 0x11), (3, 0x11)],
+             "422": [(1, 0x21), (2, 0x11), (3, 0x11)]}[lay]
+    mw = 8 * max(c[1] >> 4 for c in comps)
+    mh = 8 * max(c[1] & 15 for c in comps)
+    nmx, nmy = rng.range(1, 3), rng.range(1, 2)
+    w, h = mw * nmx - rng.below(3), mh * nmy - rng.below(3)
+    out = bytearray(b"\xff\xd8")
+    out += seg(0xDB, bytes([0]) + bytes([1] * 64))
+    out += seg(0xC0, bytes([8, h >> 8, h & 255, w >> 8, w & 255, len(comps)]) + b"".join(bytes([c[0], c[1], 0]) for c in comps))
+    dcv = list(range(16))
+    acv = [0x10 * (i + 1) for i in range(15)] + [0x0F]
+    if rng.chance(1, 3):
+        acv[14] = 0x0F      # the 15-bit code carries 15 bits too
+    if rng.chance(1, 4):
+        acv[rng.below(15)] = rng.choice([0x0E, 0x1F, 0x0D, 0x2F])
+    out += seg(0xC4, bytes([0x00]) + bytes([1] * 16) + bytes(dcv) + bytes([0x10]) + bytes([1] * 16) + bytes(acv))
+    out += seg(0xDA, bytes([len(comps)]) + b"".join(bytes([c[0], 0x00]) for c in comps) + bytes([0, 63, 0]))
+    bw = BitW()
+    blocks = sum((c[1] >> 4) * (c[1] & 15) for c in comps) * nmx * nmy
+    dens = rng.choice([100, 100, 97, 90])
+    for _ in range(blocks):
+        for k in range(64):
+            if rng.below(100) < dens:
+                bw.put(0xFFFE, 16)
+                bw.put(0x7FFF if rng.chance(9, 10) else rng.below(1 << 15), 15)
+            else:
+                ln = rng.range(1, 15)
+                bw.put((1 << ln) - 2, ln)        # code of length ln: ones then a zero
+                if k == 0:
+                    bw.put(rng.below(1 << (ln - 1)) if ln > 1 else 0, ln - 1)   # DC: category ln-1
+                # AC: run/size (ln,0): only ZRL-like/EOB-like symbols, no extra bits
+    data = bw.flush()
+    per_mcu = max(len(data) // (nmx * nmy), 1)
+    r = rng.below(4)
+    if r == 0:
+        cut = rng.below(len(data) + 1)
+    elif r == 1:     # inside the last MCU, more than 256 bytes per block left
+        cut = len(data) - rng.below(max(per_mcu // 2, 1))
+    else:            # somewhere inside a random MCU
+        cut = per_mcu * rng.below(nmx * nmy) + rng.range(per_mcu // 2, per_mcu)
+    cut = max(0, min(cut, len(data)))
+    out += data[:cut]
+    if rng.chance(1, 10):
+        out += b"\xff\xd9"
+    return bytes(out)
+
+
+def gen_hist_case(rng, seeds8, parsed):
+    """history on ONE libjpeg object with a suspending source: stream A delivered up to a cut
+    (marker boundaries, inside COM/APPn payloads, inside tables, inside entropy data), abandoned with
+    jpeg_abort_decompress, then a complete valid stream B on the same object"""
+    s, tag, segs = rng.choice(parsed)
+    a = bytearray(s)
+    # insert COM / APPn segments of assorted sizes after SOI (and sometimes before SOS)
+    ins = bytearray()
+    for _ in range(rng.range(1, 3)):
+        ln = rng.choice([0, 1, 5, 14, 100, 1000, 5000, 65533])
+        declared = ln if rng.chance(3, 4) else min(65533, ln + rng.choice([1, 50, 4000]))
+        m = rng.choice([0xFE, 0xFE, 0xE1, 0xE2, 0xED, 0xEE, 0xE0])
+        ins += bytes([0xFF, m, (declared + 2) >> 8, (declared + 2) & 255]) + bytes([65 + (i % 26) for i in range(ln)])
+    pos = 2
+    if rng.chance(1, 4):
+        sos = [o for (o, m, n) in segs if m == 0xDA]
+        if sos:
+            pos = sos[0]
+    a[pos:pos] = ins
+    a = bytes(a)
+    r = rng.below(6)
+    if r <= 2:          # inside the inserted segments
+        cut = pos + rng.below(len(ins) + 1)
+    elif r == 3:
+        cut = rng.below(len(a) + 1)
+    elif r == 4:
+        segs2 = segments(a)
+        o, m, n = rng.choice(segs2) if segs2 else (0, 0, 0)
+        cut = o + rng.choice([0, 1, 2, 3, 4, n // 2, max(n - 1, 0)])
+    else:
+        cut = len(a) - rng.below(8)
+    b = bytearray(rng.choice(seeds8))
+    com = rng.choice([b"hello", b"", b"x" * 300, bytes(range(32))])
+    b[2:2] = seg(rng.choice([0xFE, 0xE1, 0xFE]), com)
+    flags = rng.choice([1, 1, 1, 3, 3, 7, 9, 11, 15, 0, 2, 10])
+    return "hist %d %d %s %s" % (flags, max(0, min(cut, len(a))), a.hex(), bytes(b).hex())
+
+
 def gen_blk_case(rng):
     """case line for harness/c01blk.c and the block model"""
     dcb, dcv = STD_DC_BITS, STD_DC_VALS
@@ -513,6 +625,18 @@ def judge_dec(ctx, line, res, nbytes):
                       rep, signature="uninit:k%s" % k)
     if k == "3" and kv.get("rc") == "0" and kv.get("reparse") not in ("0",) and kv.get("osz") != "0":
         ctx.violation("tj3Transform reported success but its output is not a readable JPEG: " + res, rep, signature="xform-output")
+
+
+def judge_hist(ctx, line, res):
+    if res is None:
+        return
+    kv = dict(p.split("=", 1) for p in res.split()[1:] if "=" in p)
+    if kv.get("same") != "1":
+        ctx.violation("a decompress object re-used after jpeg_abort_decompress() of a suspended/failed datastream handles a valid stream "
+                      "differently from a fresh object (state of the abandoned stream survived): " + res[:400],
+                      {"line": line, "result": res}, signature="reuse-after-abort:" + ("header" if not kv.get("b", "").startswith("ok") else "data"))
+    if float(kv.get("t", "0")) > 20e6:
+        ctx.violation("history case took %.0f us of CPU" % float(kv["t"]), {"line": line, "result": res}, signature="time:hist")
 
 
 def start_part(l):
@@ -663,8 +787,15 @@ def run(ctx):
             for _ in range(rng.range(4, 40)):
                 b[rng.below(len(b))] = rng.below(256)
             streams.append((bytes(b), "random-overwrite"))
+    for i in range(total * 4 // 100):
+        streams.append((gen_fastpath(rng), "fastpath-worstcase"))
     for (s, kind) in streams:
         cases.append(("hdr " + s.hex(), kind))
+    seeds8 = [s for s, tag in seeds if tag in ("p0", "p2", "p3", "p4") and b"\xff\xc0\x00" in s or tag in ("p2", "p3", "p4") and (b"\xff\xc2\x00\x11\x08" in s or b"\xff\xc2\x00\x0b\x08" in s or b"\xff\xc9\x00\x11\x08" in s or b"\xff\xca\x00\x11\x08" in s)]
+    if not seeds8:
+        seeds8 = [s for s, tag in seeds if tag == "p0"]
+    for i in range(ctx.n(600, 12000)):
+        cases.append((gen_hist_case(rng, seeds8, parsed), "hist"))
     nblk = ctx.n(1000, 20000)
     for i in range(nblk):
         cases.append((gen_blk_case(rng), "blk"))
@@ -676,6 +807,7 @@ def run_cases(ctx, drv, exe, blk, cases, oracle_every=1):
     hdr_cases = [(l, k) for (l, k) in cases if l.startswith("hdr")]
     blk_cases = [(l, k) for (l, k) in cases if l.startswith("blk ")]
     dec_given = [(l, k) for (l, k) in cases if l.startswith("dec ")]
+    hist_cases = [(l, k) for (l, k) in cases if l.startswith("hist ")]
 
     # ---- model side
     mlines = None
@@ -727,6 +859,10 @@ def run_cases(ctx, drv, exe, blk, cases, oracle_every=1):
             data = bytes.fromhex(line[4:].strip()) if len(line) > 4 else b""
             dec_lines.append("dec 0 0 0 0 0 " + data.hex())
             dec_lines.append(dec_line(rng, i, data))
+            if kind == "fastpath-worstcase":      # every decode entry point that runs the sequential Huffman decoder
+                dec_lines.append("dec 1 %d 0 %d 0 %s" % (rng.choice([0, 6]), rng.below(4), data.hex()))
+                dec_lines.append("dec 3 %d 0 0 0 %s" % (rng.below(8), data.hex()))
+                dec_lines.append("dec 5 0 0 0 0 " + data.hex())
     dres = run_lines(ctx, exe, dec_lines, "decode API under options")
     produced = 0
     for line, res in zip(dec_lines, dres):
@@ -735,6 +871,18 @@ def run_cases(ctx, drv, exe, blk, cases, oracle_every=1):
         if res and ("done=1" in res or re.search(r"rows=[1-9]", res)):
             produced += 1
         ctx.count("oracle-k" + line.split()[1], 1, None)
+
+    # ---- histories on one object: suspend, abort, re-use
+    if hist_cases:
+        hres = run_lines(ctx, exe, [l for l, _ in hist_cases], "suspend / abort / re-use history")
+        nsame = 0
+        for (line, kind), res in zip(hist_cases, hres):
+            judge_hist(ctx, line, res)
+            if res and "same=1" in res:
+                nsame += 1
+            ctx.count("hist", 1, (res or "")[:120])
+        ctx.cov["history_cases"] = len(hist_cases)
+        ctx.cov["history_cases_second_stream_equal_to_fresh_object"] = nsame
 
     # ---- one-block decode: real decode_mcu_slow vs block model
     bdis = 0
